@@ -702,6 +702,13 @@ func NewPeerGroupFromConfigStruct(pconf *PeerGroup) *api.PeerGroup {
 
 	timer := pconf.Timers
 	s := pconf.State
+	var removePrivate api.RemovePrivate
+	switch pconf.Config.RemovePrivateAs {
+	case REMOVE_PRIVATE_AS_OPTION_ALL:
+		removePrivate = api.RemovePrivate_REMOVE_PRIVATE_ALL
+	case REMOVE_PRIVATE_AS_OPTION_REPLACE:
+		removePrivate = api.RemovePrivate_REMOVE_PRIVATE_REPLACE
+	}
 	return &api.PeerGroup{
 		ApplyPolicy: newApplyPolicyFromConfigStruct(&pconf.ApplyPolicy),
 		Conf: &api.PeerGroupConf{
@@ -716,6 +723,7 @@ func NewPeerGroupFromConfigStruct(pconf *PeerGroup) *api.PeerGroup {
 			AllowOwnAsn:          uint32(pconf.AsPathOptions.Config.AllowOwnAs),
 			ReplacePeerAsn:       pconf.AsPathOptions.Config.ReplacePeerAs,
 			AllowAspathLoopLocal: pconf.AsPathOptions.Config.AllowAsPathLoopLocal,
+			RemovePrivate:        removePrivate,
 		},
 		Info: &api.PeerGroupState{
 			PeerAsn:       s.PeerAs,
